@@ -19,7 +19,7 @@ def run(ctx):
     args = []
     st = 0
     for cfg in ("MCSession.s1.cfg", "MCSession.s2.cfg"):
-        t = ctx.tlc("MCSession", cfg, workers=2, timeout=600, require_actions=("Open", "Close", "Tick"))
+        t = ctx.tlc("MCSession", cfg, workers=2, timeout=600, require_actions=("Open", "Close", "FailAll", "Tick"))
         ctx.spec_must_hold(t)
         args += ["--vectors", t["out"]]
         st += t["distinct"]
